@@ -91,7 +91,7 @@ impl C09 {
         let mk = |tier: Tier| -> Layout {
             let (edge, stride, rv, seeded) = match tier {
                 Tier::Quick => (768, 977, 2u64, 40_000u64),
-                Tier::Thorough => (4096, 16, 10u64, 1_500_000u64),
+                Tier::Thorough => (4096, 8, 10u64, 1_500_000u64),
             };
             let mut l = Layout { read_variants: rv, extra_per_file: 24, seeded, ..Default::default() };
             let mut cum = 0u64;
